@@ -1429,6 +1429,41 @@ def check_batch4(fails_out):
     finally:
         shutil.rmtree(d, ignore_errors=True)
 
+    # ---- C08 / C14: sortable NUMERIC fields with an EXPLICIT default: a document without a value reads the default and
+    # sorts where the default sorts (signed / unsigned int, float, Decimal), over two segments
+    from decimal import Decimal
+    from whoosh.filedb.filestore import RamStorage
+    for name, mkf, vals, dflt in (("int32 signed", lambda: fields.NUMERIC(int, 32, signed=True, sortable=True, default=5), [3, None, 7, 5, None, 0, 10, -4], 5),
+                                  ("int8 unsigned", lambda: fields.NUMERIC(int, 8, signed=False, sortable=True, default=5), [3, None, 7, 5, None, 0, 10], 5),
+                                  ("int16 signed negative default", lambda: fields.NUMERIC(int, 16, signed=True, sortable=True, default=-2), [3, None, -7, None, -2, 0], -2),
+                                  ("float", lambda: fields.NUMERIC(float, sortable=True, default=2.5), [3.0, None, 7.5, 2.5, None, 0.0, -1.0], 2.5),
+                                  ("decimal", lambda: fields.NUMERIC(Decimal, decimal_places=2, sortable=True, default=Decimal("1.50")),
+                                   [Decimal("3.00"), None, Decimal("0.25"), None], Decimal("1.50"))):
+        try:
+            ix = RamStorage().create_index(fields.Schema(k=fields.ID(stored=True), m=mkf()))
+            w = ix.writer()
+            for i, v in enumerate(vals):
+                if i == 3:
+                    w.commit(merge=False)
+                    w = ix.writer()
+                if v is None:
+                    w.add_document(k=u"%d" % i)
+                else:
+                    w.add_document(k=u"%d" % i, m=v)
+            w.commit(merge=False)
+            with ix.searcher() as s_:
+                cr = s_.reader().column_reader("m")
+                got = [cr[i] for i in range(len(vals))]
+                order = [int(h["k"]) for h in s_.search(query.Every(), sortedby="m", limit=None)]
+            model = [(dflt if v is None else v) for v in vals]
+            exp = sorted(range(len(vals)), key=lambda i: (model[i], i))
+            if got != model:
+                F("C08-numeric-explicit-default", "NUMERIC %s, default=%r: column reads %r, expected %r" % (name, dflt, got, model))
+            elif order != exp:
+                F("C14-numeric-explicit-default-sort", "NUMERIC %s, default=%r: sorted order %r, expected %r" % (name, dflt, order, exp))
+        except Exception as e:
+            F("C08-numeric-explicit-default", "NUMERIC %s, default=%r: %s: %s" % (name, dflt, type(e).__name__, e))
+
 
 def run_deterministic(fails):
     check_batch4(fails)
